@@ -53,6 +53,13 @@ module Coq__1 = struct
 end
 include Coq__1
 
+(** val mul : nat -> nat -> nat **)
+
+let rec mul n m =
+  match n with
+  | O -> O
+  | S p -> add m (mul p m)
+
 (** val sub : nat -> nat -> nat **)
 
 let rec sub n m =
@@ -89,6 +96,12 @@ module Nat =
   let ltb n m =
     leb (S n) m
  end
+
+(** val hd : 'a1 -> 'a1 list -> 'a1 **)
+
+let hd default = function
+| [] -> default
+| x :: _ -> x
 
 (** val nth : nat -> 'a1 list -> 'a1 -> 'a1 **)
 
@@ -161,6 +174,21 @@ let rec firstn n l =
              | [] -> []
              | a :: l0 -> a :: (firstn n0 l0))
 
+(** val skipn : nat -> 'a1 list -> 'a1 list **)
+
+let rec skipn n l =
+  match n with
+  | O -> l
+  | S n0 -> (match l with
+             | [] -> []
+             | _ :: l0 -> skipn n0 l0)
+
+(** val seq : nat -> nat -> nat list **)
+
+let rec seq start = function
+| O -> []
+| S len1 -> start :: (seq (S start) len1)
+
 (** val repeat : 'a1 -> nat -> 'a1 list **)
 
 let rec repeat x = function
@@ -179,6 +207,14 @@ type z =
 
 module Pos =
  struct
+  type mask =
+  | IsNul
+  | IsPos of positive
+  | IsNeg
+ end
+
+module Coq_Pos =
+ struct
   (** val succ : positive -> positive **)
 
   let rec succ = function
@@ -192,17 +228,17 @@ module Pos =
     match x with
     | XI p ->
       (match y with
-       | XI q -> XO (add_carry p q)
-       | XO q -> XI (add p q)
+       | XI q0 -> XO (add_carry p q0)
+       | XO q0 -> XI (add p q0)
        | XH -> XO (succ p))
     | XO p ->
       (match y with
-       | XI q -> XI (add p q)
-       | XO q -> XO (add p q)
+       | XI q0 -> XI (add p q0)
+       | XO q0 -> XO (add p q0)
        | XH -> XI p)
     | XH -> (match y with
-             | XI q -> XO (succ q)
-             | XO q -> XI q
+             | XI q0 -> XO (succ q0)
+             | XO q0 -> XI q0
              | XH -> XO XH)
 
   (** val add_carry : positive -> positive -> positive **)
@@ -211,18 +247,18 @@ module Pos =
     match x with
     | XI p ->
       (match y with
-       | XI q -> XI (add_carry p q)
-       | XO q -> XO (add_carry p q)
+       | XI q0 -> XI (add_carry p q0)
+       | XO q0 -> XO (add_carry p q0)
        | XH -> XI (succ p))
     | XO p ->
       (match y with
-       | XI q -> XO (add_carry p q)
-       | XO q -> XI (add p q)
+       | XI q0 -> XO (add_carry p q0)
+       | XO q0 -> XI (add p q0)
        | XH -> XO (succ p))
     | XH ->
       (match y with
-       | XI q -> XI (succ q)
-       | XO q -> XO (succ q)
+       | XI q0 -> XI (succ q0)
+       | XO q0 -> XO (succ q0)
        | XH -> XI XH)
 
   (** val pred_double : positive -> positive **)
@@ -232,6 +268,72 @@ module Pos =
   | XO p -> XI (pred_double p)
   | XH -> XH
 
+  type mask = Pos.mask =
+  | IsNul
+  | IsPos of positive
+  | IsNeg
+
+  (** val succ_double_mask : mask -> mask **)
+
+  let succ_double_mask = function
+  | IsNul -> IsPos XH
+  | IsPos p -> IsPos (XI p)
+  | IsNeg -> IsNeg
+
+  (** val double_mask : mask -> mask **)
+
+  let double_mask = function
+  | IsPos p -> IsPos (XO p)
+  | x0 -> x0
+
+  (** val double_pred_mask : positive -> mask **)
+
+  let double_pred_mask = function
+  | XI p -> IsPos (XO (XO p))
+  | XO p -> IsPos (XO (pred_double p))
+  | XH -> IsNul
+
+  (** val sub_mask : positive -> positive -> mask **)
+
+  let rec sub_mask x y =
+    match x with
+    | XI p ->
+      (match y with
+       | XI q0 -> double_mask (sub_mask p q0)
+       | XO q0 -> succ_double_mask (sub_mask p q0)
+       | XH -> IsPos (XO p))
+    | XO p ->
+      (match y with
+       | XI q0 -> succ_double_mask (sub_mask_carry p q0)
+       | XO q0 -> double_mask (sub_mask p q0)
+       | XH -> IsPos (pred_double p))
+    | XH -> (match y with
+             | XH -> IsNul
+             | _ -> IsNeg)
+
+  (** val sub_mask_carry : positive -> positive -> mask **)
+
+  and sub_mask_carry x y =
+    match x with
+    | XI p ->
+      (match y with
+       | XI q0 -> succ_double_mask (sub_mask_carry p q0)
+       | XO q0 -> double_mask (sub_mask p q0)
+       | XH -> IsPos (pred_double p))
+    | XO p ->
+      (match y with
+       | XI q0 -> double_mask (sub_mask_carry p q0)
+       | XO q0 -> succ_double_mask (sub_mask_carry p q0)
+       | XH -> double_pred_mask p)
+    | XH -> IsNeg
+
+  (** val sub : positive -> positive -> positive **)
+
+  let sub x y =
+    match sub_mask x y with
+    | IsPos z0 -> z0
+    | _ -> XH
+
   (** val mul : positive -> positive -> positive **)
 
   let rec mul x y =
@@ -240,19 +342,26 @@ module Pos =
     | XO p -> XO (mul p y)
     | XH -> y
 
+  (** val size_nat : positive -> nat **)
+
+  let rec size_nat = function
+  | XI p0 -> S (size_nat p0)
+  | XO p0 -> S (size_nat p0)
+  | XH -> S O
+
   (** val compare_cont : comparison -> positive -> positive -> comparison **)
 
   let rec compare_cont r x y =
     match x with
     | XI p ->
       (match y with
-       | XI q -> compare_cont r p q
-       | XO q -> compare_cont Gt p q
+       | XI q0 -> compare_cont r p q0
+       | XO q0 -> compare_cont Gt p q0
        | XH -> Gt)
     | XO p ->
       (match y with
-       | XI q -> compare_cont Lt p q
-       | XO q -> compare_cont r p q
+       | XI q0 -> compare_cont Lt p q0
+       | XO q0 -> compare_cont r p q0
        | XH -> Gt)
     | XH -> (match y with
              | XH -> r
@@ -262,6 +371,43 @@ module Pos =
 
   let compare =
     compare_cont Eq
+
+  (** val ggcdn :
+      nat -> positive -> positive -> positive * (positive * positive) **)
+
+  let rec ggcdn n a b =
+    match n with
+    | O -> (XH, (a, b))
+    | S n0 ->
+      (match a with
+       | XI a' ->
+         (match b with
+          | XI b' ->
+            (match compare a' b' with
+             | Eq -> (a, (XH, XH))
+             | Lt ->
+               let (g, p) = ggcdn n0 (sub b' a') a in
+               let (ba, aa) = p in (g, (aa, (add aa (XO ba))))
+             | Gt ->
+               let (g, p) = ggcdn n0 (sub a' b') b in
+               let (ab, bb) = p in (g, ((add bb (XO ab)), bb)))
+          | XO b0 ->
+            let (g, p) = ggcdn n0 a b0 in
+            let (aa, bb) = p in (g, (aa, (XO bb)))
+          | XH -> (XH, (a, XH)))
+       | XO a0 ->
+         (match b with
+          | XI _ ->
+            let (g, p) = ggcdn n0 a0 b in
+            let (aa, bb) = p in (g, ((XO aa), bb))
+          | XO b0 -> let (g, p) = ggcdn n0 a0 b0 in ((XO g), p)
+          | XH -> (XH, (a, XH)))
+       | XH -> (XH, (XH, b)))
+
+  (** val ggcd : positive -> positive -> positive * (positive * positive) **)
+
+  let ggcd a b =
+    ggcdn (Coq__1.add (size_nat a) (size_nat b)) a b
 
   (** val iter_op : ('a1 -> 'a1 -> 'a1) -> positive -> 'a1 -> 'a1 **)
 
@@ -297,13 +443,13 @@ module Z =
   let succ_double = function
   | Z0 -> Zpos XH
   | Zpos p -> Zpos (XI p)
-  | Zneg p -> Zneg (Pos.pred_double p)
+  | Zneg p -> Zneg (Coq_Pos.pred_double p)
 
   (** val pred_double : z -> z **)
 
   let pred_double = function
   | Z0 -> Zneg XH
-  | Zpos p -> Zpos (Pos.pred_double p)
+  | Zpos p -> Zpos (Coq_Pos.pred_double p)
   | Zneg p -> Zneg (XI p)
 
   (** val pos_sub : positive -> positive -> z **)
@@ -312,18 +458,18 @@ module Z =
     match x with
     | XI p ->
       (match y with
-       | XI q -> double (pos_sub p q)
-       | XO q -> succ_double (pos_sub p q)
+       | XI q0 -> double (pos_sub p q0)
+       | XO q0 -> succ_double (pos_sub p q0)
        | XH -> Zpos (XO p))
     | XO p ->
       (match y with
-       | XI q -> pred_double (pos_sub p q)
-       | XO q -> double (pos_sub p q)
-       | XH -> Zpos (Pos.pred_double p))
+       | XI q0 -> pred_double (pos_sub p q0)
+       | XO q0 -> double (pos_sub p q0)
+       | XH -> Zpos (Coq_Pos.pred_double p))
     | XH ->
       (match y with
-       | XI q -> Zneg (XO q)
-       | XO q -> Zneg (Pos.pred_double q)
+       | XI q0 -> Zneg (XO q0)
+       | XO q0 -> Zneg (Coq_Pos.pred_double q0)
        | XH -> Z0)
 
   (** val add : z -> z -> z **)
@@ -334,13 +480,13 @@ module Z =
     | Zpos x' ->
       (match y with
        | Z0 -> x
-       | Zpos y' -> Zpos (Pos.add x' y')
+       | Zpos y' -> Zpos (Coq_Pos.add x' y')
        | Zneg y' -> pos_sub x' y')
     | Zneg x' ->
       (match y with
        | Z0 -> x
        | Zpos y' -> pos_sub y' x'
-       | Zneg y' -> Zneg (Pos.add x' y'))
+       | Zneg y' -> Zneg (Coq_Pos.add x' y'))
 
   (** val opp : z -> z **)
 
@@ -357,13 +503,13 @@ module Z =
     | Zpos x' ->
       (match y with
        | Z0 -> Z0
-       | Zpos y' -> Zpos (Pos.mul x' y')
-       | Zneg y' -> Zneg (Pos.mul x' y'))
+       | Zpos y' -> Zpos (Coq_Pos.mul x' y')
+       | Zneg y' -> Zneg (Coq_Pos.mul x' y'))
     | Zneg x' ->
       (match y with
        | Z0 -> Z0
-       | Zpos y' -> Zneg (Pos.mul x' y')
-       | Zneg y' -> Zpos (Pos.mul x' y'))
+       | Zpos y' -> Zneg (Coq_Pos.mul x' y')
+       | Zneg y' -> Zpos (Coq_Pos.mul x' y'))
 
   (** val compare : z -> z -> comparison **)
 
@@ -374,12 +520,26 @@ module Z =
              | Zpos _ -> Lt
              | Zneg _ -> Gt)
     | Zpos x' -> (match y with
-                  | Zpos y' -> Pos.compare x' y'
+                  | Zpos y' -> Coq_Pos.compare x' y'
                   | _ -> Gt)
     | Zneg x' ->
       (match y with
-       | Zneg y' -> compOpp (Pos.compare x' y')
+       | Zneg y' -> compOpp (Coq_Pos.compare x' y')
        | _ -> Lt)
+
+  (** val sgn : z -> z **)
+
+  let sgn = function
+  | Z0 -> Z0
+  | Zpos _ -> Zpos XH
+  | Zneg _ -> Zneg XH
+
+  (** val leb : z -> z -> bool **)
+
+  let leb x y =
+    match compare x y with
+    | Gt -> false
+    | _ -> true
 
   (** val ltb : z -> z -> bool **)
 
@@ -388,18 +548,89 @@ module Z =
     | Lt -> true
     | _ -> false
 
+  (** val abs : z -> z **)
+
+  let abs = function
+  | Zneg p -> Zpos p
+  | x -> x
+
   (** val to_nat : z -> nat **)
 
   let to_nat = function
-  | Zpos p -> Pos.to_nat p
+  | Zpos p -> Coq_Pos.to_nat p
   | _ -> O
 
   (** val of_nat : nat -> z **)
 
   let of_nat = function
   | O -> Z0
-  | S n0 -> Zpos (Pos.of_succ_nat n0)
+  | S n0 -> Zpos (Coq_Pos.of_succ_nat n0)
+
+  (** val to_pos : z -> positive **)
+
+  let to_pos = function
+  | Zpos p -> p
+  | _ -> XH
+
+  (** val ggcd : z -> z -> z * (z * z) **)
+
+  let ggcd a b =
+    match a with
+    | Z0 -> ((abs b), (Z0, (sgn b)))
+    | Zpos a0 ->
+      (match b with
+       | Z0 -> ((abs a), ((sgn a), Z0))
+       | Zpos b0 ->
+         let (g, p) = Coq_Pos.ggcd a0 b0 in
+         let (aa, bb) = p in ((Zpos g), ((Zpos aa), (Zpos bb)))
+       | Zneg b0 ->
+         let (g, p) = Coq_Pos.ggcd a0 b0 in
+         let (aa, bb) = p in ((Zpos g), ((Zpos aa), (Zneg bb))))
+    | Zneg a0 ->
+      (match b with
+       | Z0 -> ((abs a), ((sgn a), Z0))
+       | Zpos b0 ->
+         let (g, p) = Coq_Pos.ggcd a0 b0 in
+         let (aa, bb) = p in ((Zpos g), ((Zneg aa), (Zpos bb)))
+       | Zneg b0 ->
+         let (g, p) = Coq_Pos.ggcd a0 b0 in
+         let (aa, bb) = p in ((Zpos g), ((Zneg aa), (Zneg bb))))
  end
+
+type q = { qnum : z; qden : positive }
+
+(** val qle_bool : q -> q -> bool **)
+
+let qle_bool x y =
+  Z.leb (Z.mul x.qnum (Zpos y.qden)) (Z.mul y.qnum (Zpos x.qden))
+
+(** val qplus : q -> q -> q **)
+
+let qplus x y =
+  { qnum = (Z.add (Z.mul x.qnum (Zpos y.qden)) (Z.mul y.qnum (Zpos x.qden)));
+    qden = (Coq_Pos.mul x.qden y.qden) }
+
+(** val qmult : q -> q -> q **)
+
+let qmult x y =
+  { qnum = (Z.mul x.qnum y.qnum); qden = (Coq_Pos.mul x.qden y.qden) }
+
+(** val qopp : q -> q **)
+
+let qopp x =
+  { qnum = (Z.opp x.qnum); qden = x.qden }
+
+(** val qminus : q -> q -> q **)
+
+let qminus x y =
+  qplus x (qopp y)
+
+(** val qred : q -> q **)
+
+let qred q0 =
+  let { qnum = q1; qden = q2 } = q0 in
+  let (r1, r2) = snd (Z.ggcd q1 (Zpos q2)) in
+  { qnum = r1; qden = (Z.to_pos r2) }
 
 type sx =
 | SZ of z
@@ -451,6 +682,44 @@ let dlist f = function
 | SZ _ -> None
 | SL l -> opt_all (map f l)
 
+(** val dq : sx -> q option **)
+
+let dq = function
+| SZ _ -> None
+| SL l ->
+  (match l with
+   | [] -> None
+   | s0 :: l0 ->
+     (match s0 with
+      | SZ n ->
+        (match l0 with
+         | [] -> None
+         | s1 :: l1 ->
+           (match s1 with
+            | SZ d ->
+              (match l1 with
+               | [] ->
+                 if Z.ltb Z0 d
+                 then Some { qnum = n; qden = (Z.to_pos d) }
+                 else None
+               | _ :: _ -> None)
+            | SL _ -> None))
+      | SL _ -> None))
+
+(** val dopt : (sx -> 'a1 option) -> sx -> 'a1 option option **)
+
+let dopt f = function
+| SZ _ -> None
+| SL l ->
+  (match l with
+   | [] -> Some None
+   | x :: l0 ->
+     (match l0 with
+      | [] -> (match f x with
+               | Some v -> Some (Some v)
+               | None -> None)
+      | _ :: _ -> None))
+
 (** val ez : z -> sx **)
 
 let ez z0 =
@@ -470,6 +739,11 @@ let ebool b =
 
 let elist f l =
   SL (map f l)
+
+(** val eq_ : q -> sx **)
+
+let eq_ q0 =
+  let r = qred q0 in SL ((SZ r.qnum) :: ((SZ (Zpos r.qden)) :: []))
 
 (** val eopt : ('a1 -> sx) -> 'a1 option -> sx **)
 
@@ -673,6 +947,1239 @@ let iter_next s it =
             ({ it_pos = (S it.it_pos); it_add = it.it_add; it_clear =
             it.it_clear }, (Yield (i, (get_row s i))))
 
+(** val qabs : q -> q **)
+
+let qabs x =
+  let { qnum = n; qden = d } = x in { qnum = (Z.abs n); qden = d }
+
+type ebound = q option
+
+type row = q list
+
+type matrix = row list
+
+(** val map2 : ('a1 -> 'a2 -> 'a3) -> 'a1 list -> 'a2 list -> 'a3 list **)
+
+let rec map2 f l1 l2 =
+  match l1 with
+  | [] -> []
+  | a :: t1 -> (match l2 with
+                | [] -> []
+                | b :: t2 -> (f a b) :: (map2 f t1 t2))
+
+(** val tabulate : nat -> (nat -> 'a1) -> 'a1 list **)
+
+let tabulate n f =
+  map f (seq O n)
+
+(** val vadd : row -> row -> row **)
+
+let vadd a b =
+  map2 qplus a b
+
+(** val vsub : row -> row -> row **)
+
+let vsub a b =
+  map2 qminus a b
+
+(** val vscale : q -> row -> row **)
+
+let vscale g a =
+  map (qmult g) a
+
+type bentry = q option list option
+
+(** val process_entry : bentry -> (ebound * ebound) result **)
+
+let process_entry = function
+| Some l0 ->
+  (match l0 with
+   | [] -> Err ValueError
+   | l :: l1 ->
+     (match l1 with
+      | [] -> Err ValueError
+      | h :: l2 -> (match l2 with
+                    | [] -> Ok (l, h)
+                    | _ :: _ -> Err ValueError)))
+| None -> Ok (None, None)
+
+(** val process_entries :
+    bentry list -> (ebound list * ebound list) result **)
+
+let rec process_entries = function
+| [] -> Ok ([], [])
+| b :: t ->
+  (match process_entry b with
+   | Ok a ->
+     let (l, h) = a in
+     (match process_entries t with
+      | Ok a0 -> let (ls, hs) = a0 in Ok ((l :: ls), (h :: hs))
+      | Err e -> Err e)
+   | Err e -> Err e)
+
+(** val process_bounds :
+    bentry list option -> nat -> (ebound list * ebound list) result **)
+
+let process_bounds bounds dim =
+  match bounds with
+  | Some bs ->
+    if Nat.eqb (length bs) dim then process_entries bs else Err ValueError
+  | None -> Ok ((repeat None dim), (repeat None dim))
+
+(** val qmax : q -> q -> q **)
+
+let qmax a b =
+  if qle_bool b a then a else b
+
+(** val qmin : q -> q -> q **)
+
+let qmin a b =
+  if qle_bool a b then a else b
+
+(** val clip_lo : q -> ebound -> q **)
+
+let clip_lo x = function
+| Some l -> qmax x l
+| None -> x
+
+(** val clip_hi : q -> ebound -> q **)
+
+let clip_hi x = function
+| Some h -> qmin x h
+| None -> x
+
+(** val clip : q -> ebound -> ebound -> q **)
+
+let clip x lo hi =
+  clip_hi (clip_lo x lo) hi
+
+(** val clip_row : row -> ebound list -> ebound list -> row **)
+
+let rec clip_row r lo hi =
+  match r with
+  | [] -> []
+  | x :: t ->
+    (match lo with
+     | [] -> []
+     | l :: lt ->
+       (match hi with
+        | [] -> []
+        | h :: ht -> (clip x l h) :: (clip_row t lt ht)))
+
+(** val clip_matrix : matrix -> ebound list -> ebound list -> matrix **)
+
+let clip_matrix m lo hi =
+  map (fun r -> clip_row r lo hi) m
+
+(** val oob : q -> ebound -> ebound -> bool **)
+
+let oob x lo hi =
+  (||) (match lo with
+        | Some l -> negb (qle_bool l x)
+        | None -> false)
+    (match hi with
+     | Some h -> negb (qle_bool x h)
+     | None -> false)
+
+(** val row_oob : row -> ebound list -> ebound list -> bool **)
+
+let rec row_oob r lo hi =
+  match r with
+  | [] -> false
+  | x :: t ->
+    (match lo with
+     | [] -> false
+     | l :: lt ->
+       (match hi with
+        | [] -> false
+        | h :: ht -> (||) (oob x l h) (row_oob t lt ht)))
+
+type ecfg = { e_batch : nat; e_dim : nat; e_x0 : row; e_init : matrix option;
+              e_lo : ebound list; e_hi : ebound list }
+
+(** val sample_elites : matrix -> nat -> (nat -> nat) -> matrix result **)
+
+let sample_elites elites n ints =
+  match elites with
+  | [] -> Err IndexError
+  | _ :: _ -> Ok (tabulate n (fun k -> nth (ints k) elites []))
+
+(** val parents_of : ecfg -> matrix -> nat -> (nat -> nat) -> matrix **)
+
+let parents_of c elites n ints =
+  match sample_elites elites n ints with
+  | Ok ps -> ps
+  | Err _ -> repeat c.e_x0 n
+
+(** val draw_matrix : nat -> nat -> (nat -> nat -> q) -> matrix **)
+
+let draw_matrix b d z0 =
+  tabulate b (fun i -> tabulate d (z0 i))
+
+(** val gaussian_op :
+    ebound list -> ebound list -> matrix -> matrix -> matrix **)
+
+let gaussian_op lo hi parents noise =
+  clip_matrix (map2 vadd parents noise) lo hi
+
+(** val isoline_row : row -> row -> row -> q -> row **)
+
+let isoline_row e p1 iso g =
+  vadd (vadd e iso) (vscale g (vsub p1 e))
+
+(** val isoline_rows : matrix -> matrix -> matrix -> q list -> matrix **)
+
+let rec isoline_rows p0 p1 iso line =
+  match p0 with
+  | [] -> []
+  | e :: t0 ->
+    (match p1 with
+     | [] -> []
+     | q0 :: t1 ->
+       (match iso with
+        | [] -> []
+        | n :: tn ->
+          (match line with
+           | [] -> []
+           | g :: tg -> (isoline_row e q0 n g) :: (isoline_rows t0 t1 tn tg))))
+
+(** val isoline_op :
+    ebound list -> ebound list -> matrix -> matrix -> matrix -> q list ->
+    matrix **)
+
+let isoline_op lo hi p0 p1 iso line =
+  clip_matrix (isoline_rows p0 p1 iso line) lo hi
+
+(** val gaussian_ask :
+    ecfg -> matrix -> (nat -> nat) -> (nat -> nat -> q) -> matrix **)
+
+let gaussian_ask c elites ints z0 =
+  match elites with
+  | [] ->
+    (match c.e_init with
+     | Some ini -> clip_matrix ini c.e_lo c.e_hi
+     | None ->
+       gaussian_op c.e_lo c.e_hi (parents_of c elites c.e_batch ints)
+         (draw_matrix c.e_batch c.e_dim z0))
+  | _ :: _ ->
+    gaussian_op c.e_lo c.e_hi (parents_of c elites c.e_batch ints)
+      (draw_matrix c.e_batch c.e_dim z0)
+
+(** val isoline_ask :
+    ecfg -> matrix -> (nat -> nat) -> (nat -> nat -> q) -> (nat -> q) ->
+    matrix **)
+
+let isoline_ask c elites ints iso line =
+  match elites with
+  | [] ->
+    (match c.e_init with
+     | Some ini -> clip_matrix ini c.e_lo c.e_hi
+     | None ->
+       let ps = parents_of c elites (mul (S (S O)) c.e_batch) ints in
+       isoline_op c.e_lo c.e_hi (firstn c.e_batch ps) (skipn c.e_batch ps)
+         (draw_matrix c.e_batch c.e_dim iso) (tabulate c.e_batch line))
+  | _ :: _ ->
+    let ps = parents_of c elites (mul (S (S O)) c.e_batch) ints in
+    isoline_op c.e_lo c.e_hi (firstn c.e_batch ps) (skipn c.e_batch ps)
+      (draw_matrix c.e_batch c.e_dim iso) (tabulate c.e_batch line)
+
+type operator =
+| OpGaussian
+| OpIsoLine
+
+(** val parent_type : operator -> nat **)
+
+let parent_type = function
+| OpGaussian -> S O
+| OpIsoLine -> S (S O)
+
+(** val ga_ask :
+    ecfg -> operator -> matrix -> (nat -> nat) -> (nat -> nat -> q) -> (nat
+    -> q) -> matrix **)
+
+let ga_ask c o elites ints z0 line =
+  match elites with
+  | [] ->
+    (match c.e_init with
+     | Some ini -> clip_matrix ini c.e_lo c.e_hi
+     | None ->
+       if Nat.eqb (parent_type o) (S (S O))
+       then let ps = parents_of c elites (mul (S (S O)) c.e_batch) ints in
+            isoline_op c.e_lo c.e_hi (firstn c.e_batch ps)
+              (skipn c.e_batch ps) (draw_matrix c.e_batch c.e_dim z0)
+              (tabulate c.e_batch line)
+       else gaussian_op c.e_lo c.e_hi (parents_of c elites c.e_batch ints)
+              (draw_matrix c.e_batch c.e_dim z0))
+  | _ :: _ ->
+    if Nat.eqb (parent_type o) (S (S O))
+    then let ps = parents_of c elites (mul (S (S O)) c.e_batch) ints in
+         isoline_op c.e_lo c.e_hi (firstn c.e_batch ps) (skipn c.e_batch ps)
+           (draw_matrix c.e_batch c.e_dim z0) (tabulate c.e_batch line)
+    else gaussian_op c.e_lo c.e_hi (parents_of c elites c.e_batch ints)
+           (draw_matrix c.e_batch c.e_dim z0)
+
+(** val dqd_line_rows : matrix -> matrix -> matrix -> q list -> matrix **)
+
+let rec dqd_line_rows ps others noise line =
+  match ps with
+  | [] -> []
+  | p :: tp ->
+    (match others with
+     | [] -> []
+     | o :: to0 ->
+       (match noise with
+        | [] -> []
+        | n :: tn ->
+          (match line with
+           | [] -> []
+           | g :: tg ->
+             (vadd (vadd p (vscale g (vsub o p))) n) :: (dqd_line_rows tp to0
+                                                          tn tg))))
+
+(** val go_ask_dqd :
+    ecfg -> bool -> matrix -> (nat -> nat) -> (nat -> nat -> q) -> (nat -> q)
+    -> matrix **)
+
+let go_ask_dqd c isolinedd elites ints z0 line =
+  match elites with
+  | [] ->
+    (match c.e_init with
+     | Some _ -> []
+     | None ->
+       let b = c.e_batch in
+       let parents = parents_of c elites b ints in
+       let noise = draw_matrix b c.e_dim z0 in
+       if isolinedd
+       then let others = parents_of c elites b (fun k -> ints (add b k)) in
+            clip_matrix
+              (dqd_line_rows parents others noise (tabulate b line)) c.e_lo
+              c.e_hi
+       else clip_matrix (map2 vadd parents noise) c.e_lo c.e_hi)
+  | _ :: _ ->
+    let b = c.e_batch in
+    let parents = parents_of c elites b ints in
+    let noise = draw_matrix b c.e_dim z0 in
+    if isolinedd
+    then let others = parents_of c elites b (fun k -> ints (add b k)) in
+         clip_matrix (dqd_line_rows parents others noise (tabulate b line))
+           c.e_lo c.e_hi
+    else clip_matrix (map2 vadd parents noise) c.e_lo c.e_hi
+
+(** val lincomb : row -> q list -> matrix -> row **)
+
+let rec lincomb base coeffs jac =
+  match coeffs with
+  | [] -> base
+  | g :: tc ->
+    (match jac with
+     | [] -> base
+     | r :: tj -> lincomb (vadd base (vscale g r)) tc tj)
+
+(** val zero_row : nat -> row **)
+
+let zero_row d =
+  repeat { qnum = Z0; qden = XH } d
+
+(** val go_coeffs : nat -> nat -> (nat -> nat -> q) -> matrix **)
+
+let go_coeffs b m1 z0 =
+  tabulate b (fun i ->
+    tabulate m1 (fun j -> if Nat.eqb j O then qabs (z0 i j) else z0 i j))
+
+(** val go_ask :
+    ecfg -> bool -> matrix -> matrix -> matrix list option -> q -> nat ->
+    (nat -> nat -> q) -> matrix result **)
+
+let go_ask c mg elites parents jac sigma_g m1 z0 =
+  match elites with
+  | [] ->
+    (match c.e_init with
+     | Some ini -> Ok (clip_matrix ini c.e_lo c.e_hi)
+     | None ->
+       (match jac with
+        | Some j ->
+          let sols =
+            if mg
+            then map2 (fun pj cf ->
+                   vadd (lincomb (zero_row c.e_dim) cf (snd pj)) (fst pj))
+                   (combine parents j) (go_coeffs (length j) m1 z0)
+            else map2 (fun p ji -> vadd p (vscale sigma_g (hd [] ji)))
+                   parents j
+          in
+          Ok (clip_matrix sols c.e_lo c.e_hi)
+        | None -> Err RuntimeError))
+  | _ :: _ ->
+    (match jac with
+     | Some j ->
+       let sols =
+         if mg
+         then map2 (fun pj cf ->
+                vadd (lincomb (zero_row c.e_dim) cf (snd pj)) (fst pj))
+                (combine parents j) (go_coeffs (length j) m1 z0)
+         else map2 (fun p ji -> vadd p (vscale sigma_g (hd [] ji))) parents j
+       in
+       Ok (clip_matrix sols c.e_lo c.e_hi)
+     | None -> Err RuntimeError)
+
+(** val gae_ask : row -> matrix -> matrix -> matrix **)
+
+let gae_ask theta jac coeffs =
+  map (fun cf -> vadd theta (lincomb (zero_row (length theta)) cf jac)) coeffs
+
+type rs_result =
+| RsDone of matrix * nat list * nat
+| RsNeed of nat
+| RsFuel
+
+(** val write_slots :
+    (row * nat) list -> nat list -> (row * nat) list -> (row * nat) list **)
+
+let rec write_slots sols idx cand =
+  match idx with
+  | [] -> sols
+  | i :: ti ->
+    (match cand with
+     | [] -> sols
+     | x :: tc -> write_slots (upd sols i x) ti tc)
+
+(** val still_oob :
+    ebound list -> ebound list -> nat list -> matrix -> nat list **)
+
+let rec still_oob lo hi idx cand =
+  match idx with
+  | [] -> []
+  | i :: ti ->
+    (match cand with
+     | [] -> []
+     | x :: tc ->
+       if row_oob x lo hi
+       then i :: (still_oob lo hi ti tc)
+       else still_oob lo hi ti tc)
+
+(** val resample :
+    nat -> ebound list -> ebound list -> matrix -> nat -> (row * nat) list ->
+    nat list -> rs_result **)
+
+let rec resample fuel lo hi stream pos sols remaining = match remaining with
+| [] -> RsDone ((map fst sols), (map snd sols), pos)
+| _ :: _ ->
+  (match fuel with
+   | O -> RsFuel
+   | S f ->
+     let k = length remaining in
+     if Nat.ltb (length stream) k
+     then RsNeed k
+     else let cand = firstn k stream in
+          resample f lo hi (skipn k stream) (add pos k)
+            (write_slots sols remaining (combine cand (seq pos k)))
+            (still_oob lo hi remaining cand))
+
+(** val es_ask :
+    nat -> ebound list -> ebound list -> nat -> matrix -> rs_result **)
+
+let es_ask fuel lo hi batch stream =
+  match batch with
+  | O -> RsDone ([], [], O)
+  | S _ -> resample fuel lo hi stream O (repeat ([], O) batch) (seq O batch)
+
+type dt =
+| F32
+| F64
+
+(** val promote : dt -> dt -> dt **)
+
+let promote a b =
+  match a with
+  | F32 -> b
+  | F64 -> F64
+
+(** val astype : dt -> dt -> dt **)
+
+let astype target _ =
+  target
+
+type es_kind =
+| CmaEs
+| SepCmaEs
+| LmMaEs
+| OpenAiEs
+| PyCmaEs
+
+type akind =
+| KGaussian of bool
+| KIsoLine of bool
+| KGA of operator * bool
+| KES of es_kind
+| KGoDqd of bool * bool
+| KGoAsk of bool * bool
+| KGaeDqd
+| KGaeAsk of es_kind
+
+(** val bounds_dt : bool -> dt -> dt -> dt **)
+
+let bounds_dt fixed sd md =
+  if fixed then sd else md
+
+(** val cast_out : bool -> dt -> dt -> dt **)
+
+let cast_out fixed sd x =
+  if fixed then astype sd x else x
+
+(** val es_out_dtype : es_kind -> dt -> dt **)
+
+let es_out_dtype e sd =
+  match e with
+  | PyCmaEs -> astype sd F64
+  | _ -> sd
+
+(** val out_dtype : bool -> akind -> dt -> dt -> dt -> dt **)
+
+let out_dtype fixed k sd md jd =
+  let bd = bounds_dt fixed sd md in
+  let noise = astype sd F64 in
+  let gauss = promote (promote sd noise) bd in
+  let iso =
+    promote (promote (promote sd noise) (promote noise (promote sd sd))) bd
+  in
+  let init0 = promote sd bd in
+  (match k with
+   | KGaussian init_path -> if init_path then init0 else gauss
+   | KIsoLine init_path -> if init_path then init0 else iso
+   | KGA (o, init_path) ->
+     (match o with
+      | OpGaussian -> if init_path then init0 else gauss
+      | OpIsoLine -> if init_path then init0 else iso)
+   | KES e -> es_out_dtype e sd
+   | KGoDqd (isolinedd, init_path) ->
+     if isolinedd
+     then if init_path then if fixed then sd else F64 else iso
+     else if init_path then if fixed then sd else F64 else gauss
+   | KGoAsk (mg, init_path) ->
+     if mg
+     then if init_path
+          then if fixed then init0 else sd
+          else cast_out fixed sd (promote (promote jd F64) gauss)
+     else if init_path
+          then if fixed then init0 else sd
+          else cast_out fixed sd (promote gauss (promote jd sd))
+   | KGaeDqd -> sd
+   | KGaeAsk e ->
+     cast_out fixed sd (promote sd (promote jd (es_out_dtype e sd))))
+
+type ask_call =
+| AGaussian of ecfg * matrix * (nat -> nat) * (nat -> nat -> q)
+| AIsoLine of ecfg * matrix * (nat -> nat) * (nat -> nat -> q) * (nat -> q)
+| AGA of ecfg * operator * matrix * (nat -> nat) * (nat -> nat -> q)
+   * (nat -> q)
+| AGoDqd of ecfg * bool * matrix * (nat -> nat) * (nat -> nat -> q)
+   * (nat -> q)
+| AGoAsk of ecfg * bool * matrix * matrix * matrix list option * q * 
+   nat * (nat -> nat -> q)
+
+(** val run_ask : ask_call -> matrix result **)
+
+let run_ask = function
+| AGaussian (c, e, ints, z0) -> Ok (gaussian_ask c e ints z0)
+| AIsoLine (c, e, ints, iso, line) -> Ok (isoline_ask c e ints iso line)
+| AGA (c, o, e, ints, z0, line) -> Ok (ga_ask c o e ints z0 line)
+| AGoDqd (c, l, e, ints, z0, line) -> Ok (go_ask_dqd c l e ints z0 line)
+| AGoAsk (c, mg, e, ps, jac, sg, m1, z0) -> go_ask c mg e ps jac sg m1 z0
+
+(** val err_code8 : err -> z **)
+
+let err_code8 = function
+| ValueError -> Zpos XH
+| IndexError -> Zpos (XO XH)
+| RuntimeError -> Zpos (XI XH)
+| KeyError -> Zpos (XO (XO XH))
+| TypeError -> Zpos (XI (XO XH))
+| StopIteration -> Zpos (XO (XI XH))
+| OtherError -> Zpos (XI (XI XH))
+
+(** val drow : sx -> row option **)
+
+let drow =
+  dlist dq
+
+(** val dmatrix : sx -> matrix option **)
+
+let dmatrix =
+  dlist drow
+
+(** val dbound : sx -> ebound option **)
+
+let dbound =
+  dopt dq
+
+(** val dbentry : sx -> bentry option **)
+
+let dbentry =
+  dopt (dlist (dopt dq))
+
+(** val erow : row -> sx **)
+
+let erow r =
+  elist eq_ r
+
+(** val ematrix : matrix -> sx **)
+
+let ematrix m =
+  elist erow m
+
+(** val ebounds : ebound list -> sx **)
+
+let ebounds l =
+  elist (eopt eq_) l
+
+(** val fn1 : q list -> nat -> q **)
+
+let fn1 l i =
+  nth i l { qnum = Z0; qden = XH }
+
+(** val fn2 : matrix -> nat -> nat -> q **)
+
+let fn2 m i j =
+  nth j (nth i m []) { qnum = Z0; qden = XH }
+
+(** val fnn : nat list -> nat -> nat **)
+
+let fnn l i =
+  nth i l O
+
+(** val dcfg : sx -> ecfg option **)
+
+let dcfg = function
+| SZ _ -> None
+| SL l ->
+  (match l with
+   | [] -> None
+   | b :: l0 ->
+     (match l0 with
+      | [] -> None
+      | d :: l1 ->
+        (match l1 with
+         | [] -> None
+         | x0 :: l2 ->
+           (match l2 with
+            | [] -> None
+            | ini :: l3 ->
+              (match l3 with
+               | [] -> None
+               | lo :: l4 ->
+                 (match l4 with
+                  | [] -> None
+                  | hi :: l5 ->
+                    (match l5 with
+                     | [] ->
+                       (match dnat b with
+                        | Some b' ->
+                          (match dnat d with
+                           | Some d' ->
+                             (match drow x0 with
+                              | Some x ->
+                                (match dopt dmatrix ini with
+                                 | Some i ->
+                                   (match dlist dbound lo with
+                                    | Some l6 ->
+                                      (match dlist dbound hi with
+                                       | Some h ->
+                                         Some { e_batch = b'; e_dim = d';
+                                           e_x0 = x; e_init = i; e_lo = l6;
+                                           e_hi = h }
+                                       | None -> None)
+                                    | None -> None)
+                                 | None -> None)
+                              | None -> None)
+                           | None -> None)
+                        | None -> None)
+                     | _ :: _ -> None)))))))
+
+(** val des : sx -> es_kind option **)
+
+let des = function
+| SZ z0 ->
+  (match z0 with
+   | Z0 -> Some CmaEs
+   | Zpos p ->
+     (match p with
+      | XI p0 -> (match p0 with
+                  | XH -> Some OpenAiEs
+                  | _ -> None)
+      | XO p0 ->
+        (match p0 with
+         | XI _ -> None
+         | XO p1 -> (match p1 with
+                     | XH -> Some PyCmaEs
+                     | _ -> None)
+         | XH -> Some LmMaEs)
+      | XH -> Some SepCmaEs)
+   | Zneg _ -> None)
+| SL _ -> None
+
+(** val dop : sx -> operator option **)
+
+let dop = function
+| SZ z0 ->
+  (match z0 with
+   | Z0 -> Some OpGaussian
+   | Zpos p -> (match p with
+                | XH -> Some OpIsoLine
+                | _ -> None)
+   | Zneg _ -> None)
+| SL _ -> None
+
+(** val ddt : sx -> dt option **)
+
+let ddt = function
+| SZ z0 ->
+  (match z0 with
+   | Z0 -> Some F32
+   | Zpos p -> (match p with
+                | XH -> Some F64
+                | _ -> None)
+   | Zneg _ -> None)
+| SL _ -> None
+
+(** val edt : dt -> sx **)
+
+let edt d =
+  SZ (match d with
+      | F32 -> Z0
+      | F64 -> Zpos XH)
+
+(** val dakind : sx -> akind option **)
+
+let dakind = function
+| SZ _ -> None
+| SL l0 ->
+  (match l0 with
+   | [] -> None
+   | s0 :: l1 ->
+     (match s0 with
+      | SZ z0 ->
+        (match z0 with
+         | Z0 ->
+           (match l1 with
+            | [] -> None
+            | i :: l ->
+              (match l with
+               | [] ->
+                 (match dbool i with
+                  | Some i' -> Some (KGaussian i')
+                  | None -> None)
+               | _ :: _ -> None))
+         | Zpos p ->
+           (match p with
+            | XI p0 ->
+              (match p0 with
+               | XI p1 ->
+                 (match p1 with
+                  | XH ->
+                    (match l1 with
+                     | [] -> None
+                     | e :: l ->
+                       (match l with
+                        | [] ->
+                          (match des e with
+                           | Some e' -> Some (KGaeAsk e')
+                           | None -> None)
+                        | _ :: _ -> None))
+                  | _ -> None)
+               | XO p1 ->
+                 (match p1 with
+                  | XH ->
+                    (match l1 with
+                     | [] -> None
+                     | m :: l ->
+                       (match l with
+                        | [] -> None
+                        | i :: l2 ->
+                          (match l2 with
+                           | [] ->
+                             (match dbool m with
+                              | Some m' ->
+                                (match dbool i with
+                                 | Some i' -> Some (KGoAsk (m', i'))
+                                 | None -> None)
+                              | None -> None)
+                           | _ :: _ -> None)))
+                  | _ -> None)
+               | XH ->
+                 (match l1 with
+                  | [] -> None
+                  | e :: l ->
+                    (match l with
+                     | [] ->
+                       (match des e with
+                        | Some e' -> Some (KES e')
+                        | None -> None)
+                     | _ :: _ -> None)))
+            | XO p0 ->
+              (match p0 with
+               | XI p1 ->
+                 (match p1 with
+                  | XH -> (match l1 with
+                           | [] -> Some KGaeDqd
+                           | _ :: _ -> None)
+                  | _ -> None)
+               | XO p1 ->
+                 (match p1 with
+                  | XH ->
+                    (match l1 with
+                     | [] -> None
+                     | l :: l2 ->
+                       (match l2 with
+                        | [] -> None
+                        | i :: l3 ->
+                          (match l3 with
+                           | [] ->
+                             (match dbool l with
+                              | Some l' ->
+                                (match dbool i with
+                                 | Some i' -> Some (KGoDqd (l', i'))
+                                 | None -> None)
+                              | None -> None)
+                           | _ :: _ -> None)))
+                  | _ -> None)
+               | XH ->
+                 (match l1 with
+                  | [] -> None
+                  | o :: l ->
+                    (match l with
+                     | [] -> None
+                     | i :: l2 ->
+                       (match l2 with
+                        | [] ->
+                          (match dop o with
+                           | Some o' ->
+                             (match dbool i with
+                              | Some i' -> Some (KGA (o', i'))
+                              | None -> None)
+                           | None -> None)
+                        | _ :: _ -> None))))
+            | XH ->
+              (match l1 with
+               | [] -> None
+               | i :: l ->
+                 (match l with
+                  | [] ->
+                    (match dbool i with
+                     | Some i' -> Some (KIsoLine i')
+                     | None -> None)
+                  | _ :: _ -> None)))
+         | Zneg _ -> None)
+      | SL _ -> None))
+
+(** val dcall : sx -> ask_call option **)
+
+let dcall = function
+| SZ _ -> None
+| SL l0 ->
+  (match l0 with
+   | [] -> None
+   | s0 :: l1 ->
+     (match s0 with
+      | SZ z0 ->
+        (match z0 with
+         | Z0 ->
+           (match l1 with
+            | [] -> None
+            | c :: l ->
+              (match l with
+               | [] -> None
+               | e :: l2 ->
+                 (match l2 with
+                  | [] -> None
+                  | ints :: l3 ->
+                    (match l3 with
+                     | [] -> None
+                     | z1 :: l4 ->
+                       (match l4 with
+                        | [] ->
+                          (match dcfg c with
+                           | Some c' ->
+                             (match dmatrix e with
+                              | Some e' ->
+                                (match dlist dnat ints with
+                                 | Some i' ->
+                                   (match dmatrix z1 with
+                                    | Some z' ->
+                                      Some (AGaussian (c', e', (fnn i'),
+                                        (fn2 z')))
+                                    | None -> None)
+                                 | None -> None)
+                              | None -> None)
+                           | None -> None)
+                        | _ :: _ -> None)))))
+         | Zpos p ->
+           (match p with
+            | XI p0 ->
+              (match p0 with
+               | XH ->
+                 (match l1 with
+                  | [] -> None
+                  | c :: l2 ->
+                    (match l2 with
+                     | [] -> None
+                     | l :: l3 ->
+                       (match l3 with
+                        | [] -> None
+                        | e :: l4 ->
+                          (match l4 with
+                           | [] -> None
+                           | ints :: l5 ->
+                             (match l5 with
+                              | [] -> None
+                              | z1 :: l6 ->
+                                (match l6 with
+                                 | [] -> None
+                                 | line :: l7 ->
+                                   (match l7 with
+                                    | [] ->
+                                      (match dcfg c with
+                                       | Some c' ->
+                                         (match dbool l with
+                                          | Some b' ->
+                                            (match dmatrix e with
+                                             | Some e' ->
+                                               (match dlist dnat ints with
+                                                | Some i' ->
+                                                  (match dmatrix z1 with
+                                                   | Some z' ->
+                                                     (match drow line with
+                                                      | Some l' ->
+                                                        Some (AGoDqd (c', b',
+                                                          e', (fnn i'),
+                                                          (fn2 z'), (fn1 l')))
+                                                      | None -> None)
+                                                   | None -> None)
+                                                | None -> None)
+                                             | None -> None)
+                                          | None -> None)
+                                       | None -> None)
+                                    | _ :: _ -> None)))))))
+               | _ -> None)
+            | XO p0 ->
+              (match p0 with
+               | XI _ -> None
+               | XO p1 ->
+                 (match p1 with
+                  | XH ->
+                    (match l1 with
+                     | [] -> None
+                     | c :: l ->
+                       (match l with
+                        | [] -> None
+                        | mg :: l2 ->
+                          (match l2 with
+                           | [] -> None
+                           | e :: l3 ->
+                             (match l3 with
+                              | [] -> None
+                              | ps :: l4 ->
+                                (match l4 with
+                                 | [] -> None
+                                 | jac :: l5 ->
+                                   (match l5 with
+                                    | [] -> None
+                                    | sg :: l6 ->
+                                      (match l6 with
+                                       | [] -> None
+                                       | m1 :: l7 ->
+                                         (match l7 with
+                                          | [] -> None
+                                          | z1 :: l8 ->
+                                            (match l8 with
+                                             | [] ->
+                                               (match dcfg c with
+                                                | Some c' ->
+                                                  (match dbool mg with
+                                                   | Some g' ->
+                                                     (match dmatrix e with
+                                                      | Some e' ->
+                                                        (match dmatrix ps with
+                                                         | Some p' ->
+                                                           (match dopt
+                                                                    (dlist
+                                                                    dmatrix)
+                                                                    jac with
+                                                            | Some j' ->
+                                                              (match 
+                                                               dq sg with
+                                                               | Some s' ->
+                                                                 (match 
+                                                                  dnat m1 with
+                                                                  | Some m' ->
+                                                                    (match 
+                                                                    dmatrix z1 with
+                                                                    | Some z' ->
+                                                                    Some
+                                                                    (AGoAsk
+                                                                    (c', g',
+                                                                    e', p',
+                                                                    j', s',
+                                                                    m',
+                                                                    (fn2 z')))
+                                                                    | None ->
+                                                                    None)
+                                                                  | None ->
+                                                                    None)
+                                                               | None -> None)
+                                                            | None -> None)
+                                                         | None -> None)
+                                                      | None -> None)
+                                                   | None -> None)
+                                                | None -> None)
+                                             | _ :: _ -> None)))))))))
+                  | _ -> None)
+               | XH ->
+                 (match l1 with
+                  | [] -> None
+                  | c :: l ->
+                    (match l with
+                     | [] -> None
+                     | o :: l2 ->
+                       (match l2 with
+                        | [] -> None
+                        | e :: l3 ->
+                          (match l3 with
+                           | [] -> None
+                           | ints :: l4 ->
+                             (match l4 with
+                              | [] -> None
+                              | z1 :: l5 ->
+                                (match l5 with
+                                 | [] -> None
+                                 | line :: l6 ->
+                                   (match l6 with
+                                    | [] ->
+                                      (match dcfg c with
+                                       | Some c' ->
+                                         (match dop o with
+                                          | Some o' ->
+                                            (match dmatrix e with
+                                             | Some e' ->
+                                               (match dlist dnat ints with
+                                                | Some i' ->
+                                                  (match dmatrix z1 with
+                                                   | Some z' ->
+                                                     (match drow line with
+                                                      | Some l' ->
+                                                        Some (AGA (c', o',
+                                                          e', (fnn i'),
+                                                          (fn2 z'), (fn1 l')))
+                                                      | None -> None)
+                                                   | None -> None)
+                                                | None -> None)
+                                             | None -> None)
+                                          | None -> None)
+                                       | None -> None)
+                                    | _ :: _ -> None))))))))
+            | XH ->
+              (match l1 with
+               | [] -> None
+               | c :: l ->
+                 (match l with
+                  | [] -> None
+                  | e :: l2 ->
+                    (match l2 with
+                     | [] -> None
+                     | ints :: l3 ->
+                       (match l3 with
+                        | [] -> None
+                        | iso :: l4 ->
+                          (match l4 with
+                           | [] -> None
+                           | line :: l5 ->
+                             (match l5 with
+                              | [] ->
+                                (match dcfg c with
+                                 | Some c' ->
+                                   (match dmatrix e with
+                                    | Some e' ->
+                                      (match dlist dnat ints with
+                                       | Some i' ->
+                                         (match dmatrix iso with
+                                          | Some z' ->
+                                            (match drow line with
+                                             | Some l' ->
+                                               Some (AIsoLine (c', e',
+                                                 (fnn i'), (fn2 z'),
+                                                 (fn1 l')))
+                                             | None -> None)
+                                          | None -> None)
+                                       | None -> None)
+                                    | None -> None)
+                                 | None -> None)
+                              | _ :: _ -> None)))))))
+         | Zneg _ -> None)
+      | SL _ -> None))
+
+(** val run_C08 : sx -> sx **)
+
+let run_C08 = function
+| SZ _ -> sx_fail
+| SL l ->
+  (match l with
+   | [] -> sx_fail
+   | s :: l0 ->
+     (match s with
+      | SZ z0 ->
+        (match z0 with
+         | Z0 ->
+           (match l0 with
+            | [] -> sx_fail
+            | b :: l1 ->
+              (match l1 with
+               | [] -> sx_fail
+               | d :: l2 ->
+                 (match l2 with
+                  | [] ->
+                    (match dopt (dlist dbentry) b with
+                     | Some b' ->
+                       (match dnat d with
+                        | Some d' ->
+                          (match process_bounds b' d' with
+                           | Ok a ->
+                             let (lo, hi) = a in
+                             SL ((SZ
+                             Z0) :: ((ebounds lo) :: ((ebounds hi) :: [])))
+                           | Err e -> SL ((SZ (err_code8 e)) :: []))
+                        | None -> sx_fail)
+                     | None -> sx_fail)
+                  | _ :: _ -> sx_fail)))
+         | Zpos p ->
+           (match p with
+            | XI p0 ->
+              (match p0 with
+               | XH ->
+                 (match l0 with
+                  | [] -> sx_fail
+                  | theta :: l1 ->
+                    (match l1 with
+                     | [] -> sx_fail
+                     | jac :: l2 ->
+                       (match l2 with
+                        | [] -> sx_fail
+                        | coeffs :: l3 ->
+                          (match l3 with
+                           | [] ->
+                             (match drow theta with
+                              | Some t ->
+                                (match dmatrix jac with
+                                 | Some j ->
+                                   (match dmatrix coeffs with
+                                    | Some c -> ematrix (gae_ask t j c)
+                                    | None -> sx_fail)
+                                 | None -> sx_fail)
+                              | None -> sx_fail)
+                           | _ :: _ -> sx_fail))))
+               | _ -> sx_fail)
+            | XO p0 ->
+              (match p0 with
+               | XI _ -> sx_fail
+               | XO p1 ->
+                 (match p1 with
+                  | XH ->
+                    (match l0 with
+                     | [] -> sx_fail
+                     | fixed :: l1 ->
+                       (match l1 with
+                        | [] -> sx_fail
+                        | k :: l2 ->
+                          (match l2 with
+                           | [] -> sx_fail
+                           | sd :: l3 ->
+                             (match l3 with
+                              | [] -> sx_fail
+                              | md :: l4 ->
+                                (match l4 with
+                                 | [] -> sx_fail
+                                 | jd :: l5 ->
+                                   (match l5 with
+                                    | [] ->
+                                      (match dbool fixed with
+                                       | Some f ->
+                                         (match dakind k with
+                                          | Some k' ->
+                                            (match ddt sd with
+                                             | Some s0 ->
+                                               (match ddt md with
+                                                | Some m ->
+                                                  (match ddt jd with
+                                                   | Some j ->
+                                                     edt
+                                                       (out_dtype f k' s0 m j)
+                                                   | None -> sx_fail)
+                                                | None -> sx_fail)
+                                             | None -> sx_fail)
+                                          | None -> sx_fail)
+                                       | None -> sx_fail)
+                                    | _ :: _ -> sx_fail))))))
+                  | _ -> sx_fail)
+               | XH ->
+                 (match l0 with
+                  | [] -> sx_fail
+                  | fuel :: l1 ->
+                    (match l1 with
+                     | [] -> sx_fail
+                     | lo :: l2 ->
+                       (match l2 with
+                        | [] -> sx_fail
+                        | hi :: l3 ->
+                          (match l3 with
+                           | [] -> sx_fail
+                           | b :: l4 ->
+                             (match l4 with
+                              | [] -> sx_fail
+                              | stream :: l5 ->
+                                (match l5 with
+                                 | [] ->
+                                   (match dnat fuel with
+                                    | Some f ->
+                                      (match dlist dbound lo with
+                                       | Some l6 ->
+                                         (match dlist dbound hi with
+                                          | Some h ->
+                                            (match dnat b with
+                                             | Some b' ->
+                                               (match dmatrix stream with
+                                                | Some s0 ->
+                                                  (match es_ask f l6 h b' s0 with
+                                                   | RsDone (rows0, picks,
+                                                             used) ->
+                                                     SL ((SZ
+                                                       Z0) :: ((ematrix rows0) :: (
+                                                       (elist enat picks) :: (
+                                                       (enat used) :: []))))
+                                                   | RsNeed k ->
+                                                     SL ((SZ (Zpos
+                                                       XH)) :: ((enat k) :: []))
+                                                   | RsFuel ->
+                                                     SL ((SZ (Zpos (XO
+                                                       XH))) :: []))
+                                                | None -> sx_fail)
+                                             | None -> sx_fail)
+                                          | None -> sx_fail)
+                                       | None -> sx_fail)
+                                    | None -> sx_fail)
+                                 | _ :: _ -> sx_fail)))))))
+            | XH ->
+              (match l0 with
+               | [] -> sx_fail
+               | call :: l1 ->
+                 (match l1 with
+                  | [] ->
+                    (match dcall call with
+                     | Some a ->
+                       (match run_ask a with
+                        | Ok m -> SL ((SZ Z0) :: ((ematrix m) :: []))
+                        | Err e -> SL ((SZ (err_code8 e)) :: []))
+                     | None -> sx_fail)
+                  | _ :: _ -> sx_fail)))
+         | Zneg _ -> sx_fail)
+      | SL _ -> sx_fail))
+
 (** val err_code : err -> z **)
 
 let err_code = function
@@ -690,9 +2197,9 @@ let eres f = function
 | Ok a -> SL ((SZ Z0) :: ((f a) :: []))
 | Err e -> SL ((SZ (err_code e)) :: [])
 
-(** val erow : z option -> sx **)
+(** val erow0 : z option -> sx **)
 
-let erow r =
+let erow0 r =
   eopt ez r
 
 type st = { s_store : z store; s_iters : iter list }
@@ -804,7 +2311,7 @@ let run_op s o =
                              keep
                                (eres
                                  (elist (fun p1 -> SL
-                                   ((ebool (fst p1)) :: ((erow (snd p1)) :: []))))
+                                   ((ebool (fst p1)) :: ((erow0 (snd p1)) :: []))))
                                  (retrieve s.s_store idxs))
                            | None -> keep sx_fail)
                         | _ :: _ -> keep sx_fail)))
@@ -828,7 +2335,7 @@ let run_op s o =
                                    (match out with
                                     | Yield (i, r) ->
                                       SL ((SZ
-                                        Z0) :: ((enat i) :: ((erow r) :: [])))
+                                        Z0) :: ((enat i) :: ((erow0 r) :: [])))
                                     | Stop ->
                                       SL ((SZ (Zpos (XO (XI XH)))) :: [])
                                     | Modified ->
@@ -859,7 +2366,7 @@ let run_op s o =
                         | [] ->
                           keep
                             (elist (fun p2 -> SL
-                              ((enat (fst p2)) :: ((erow (snd p2)) :: [])))
+                              ((enat (fst p2)) :: ((erow0 (snd p2)) :: [])))
                               (data s.s_store))
                         | _ :: _ -> keep sx_fail))
                   | XH ->
